@@ -169,6 +169,11 @@ def translate_site(src_root, site):
             if isinstance(e, ast.Constant) and isinstance(e.value, bool): return "true" if e.value else "false"
             return g.cond(e)
         body = f"  if {g.cond(hits[0].test)} then {bval(hits[0].body[0].value)} else {bval(hits[0].orelse[0].value)}"; rty = "Bool"
+    elif mode == "kwarg":
+        # the truth value handed to a callee as a keyword argument at the one place the function calls it
+        hits = [k.value for n in ast.walk(fn) if isinstance(n, ast.Call) and ast.unparse(n.func) == site["callee"] for k in n.keywords if k.arg == site["kw"]]
+        if len(hits) != 1: raise Unsupported(f"{len(hits)} calls of `{site['callee']}` pass `{site['kw']}=` in {site['fn']} (expected one)")
+        body = f"  {g.cond(hits[0])}"; rty = "Bool"
     elif mode == "copy":
         # how deep a copy the code takes at a given place: 0 the object itself (an alias), 1 a fresh container holding the same members,
         # 2 a deep copy.  `where` is the text of an assignment target, or "return:<callee>" for the first argument of a returned call.
@@ -423,6 +428,9 @@ SITES["C02"] += [
     dict(_RUN, fn="_run_component", mode="branch", select="is_compatible_data(ival, itype)", lean="inputTypeBranch",
          atoms={"itype": ("typed", B), "lazy": ("lazy", B), "is_compatible_data(ival, itype)": ("valOk", B)}),
     dict(_RUN, fn="_run_component", mode="branch", select="ival is None", exact=True, lean="inputErrorKindBranch", atoms={"ival": ("ival", O)}),
+    dict(_RUN, fn="_run_component", mode="kwarg", callee="self.run", kw="required", lean="eagerRunRequired", atoms={"ireq": ("ireq", B), "required": ("required", B)}),
+    dict(_RUN, fn="_run_component", mode="kwarg", callee="DeferredRun", kw="required", lean="deferredRunRequired", atoms={"ireq": ("ireq", B), "required": ("required", B)}),
+    dict(file="pipeline/runner.py", cls="DeferredRun", fn="get", mode="kwarg", callee="self.runner.run", kw="required", lean="deferredGetRequired", atoms={"self.required": ("stored", B)}),
     dict(file="pipeline/runner.py", cls="DeferredRun", fn="get", mode="branch", select="is_compatible_data(val, self.data_type)", lean="deferredTypeBranch",
          atoms={"self.data_type": ("dataType", O), "is_compatible_data(val, self.data_type)": ("valOk", B)}),
 ]
